@@ -24,6 +24,21 @@ CLAIMED = {
         design_ref="DESIGN.md section 5, C15; T-emit, T-dfs",
         note="Trusted: Coq kernel + vm_compute; hand-written builder/traversal/emitter models tied by differential replay; translator for encode tables. Theorems cover the structured (closure) fragment; hand-attached dangling sequences only by the correspondence run. No axioms.",
         technique="Coq proof: builder machine = denoted tree (invariant over arena extensions), composed with traversal and emitter theorems; differential replay through the real builder API evaluated in Coq"),
+    "C12": dict(
+        text="Coq theorems on executable models of Module::parse / emit_wasm / gc: the raw custom sections of the emitted stream are exactly the input's (names, payload bytes, multiplicity, relative order, wherever they were placed), GC does not touch them, emitting returns the module unchanged so a second emit yields the same sections. Tied to the code by replaying every (module, configuration) case - fixtures, attribute cross-product modules with customs at arbitrary places and tricky names, with and without GC - on the models inside Coq; an independent oracle checks emit, GC+emit and a second emit on the same Module.",
+        design_ref="DESIGN.md section 5, C12",
+        note="Trusted: Coq kernel + vm_compute; hand-written module-level models tied by differential replay; wasm-encoder/wasmparser for bytes. No axioms.",
+        technique="Coq proof: invariant over the payload fold (parse) and section emitters + differential replay evaluated in Coq"),
+    "C14": dict(
+        text="Coq theorems on the module-level models: switching name (producers) generation off yields exactly the section list of the on-run minus the name (producers) section; the processed-by update records walrus exactly once, is idempotent (so any number of round trips) and preserves every other producers entry in order; the parse callback counter is 1 on every successful parse (it sits after every fallible step). Tied to the code by replaying (module, configuration) cases on the models in Coq; independent oracles compare section inventories/contents across switch settings, count the walrus entry over 3 round trips and count callback invocations on successful and failed parses.",
+        design_ref="DESIGN.md section 5, C14",
+        note="Trusted: as C12. DWARF carry-over is checked by the C10 harness (section inventory with/without generate_dwarf), not by a theorem. No axioms.",
+        technique="Coq proof: section-emitter factorisation lemmas, idempotence of the producers update + differential replay evaluated in Coq"),
+    "C08": dict(
+        text="Coq theorems: emit returns the module unchanged and emitting again gives the identical result (repeatability, customs included); every hash-ordered source is followed by a sort on an injective key, so the output is independent of iteration order (used-locals set, names, function order); already-canonical inputs stay put under the sorts (the ordering half of the round-trip fixpoint). Tied to the code by the module-level replay; independent oracles emit three times on one Module and re-round-trip walrus's own output (byte equality).",
+        design_ref="DESIGN.md section 5, C08",
+        note="Partial: the full fixpoint theorem emit(parse(emit(parse w))) = emit(parse w) is not proved (only its ordering lemmas and normal-form idempotence facts); byte-level determinism below the abstract section stream is wasm-encoder's purity; cross-process determinism is exercised by the thorough tier. No axioms.",
+        technique="Coq proof: emit-keeps-module + permutation-invariance of insertion sorts on injective keys; differential replay and repeated-emit oracle"),
 }
 
 PENDING_REASON = "check not yet built in this snapshot (construction in progress per DESIGN.md section 10); an executable Coq model is planned, so this is not a claim that the technique cannot apply"
